@@ -86,4 +86,15 @@ PROPS = {
         "trusted_base": ["walrus_macro expansion is read textually from its quote! blocks"],
         "assumptions": ["the sequence graph reachable from the entry is acyclic (instruction trees; a cyclic graph makes the real traversal loop forever)"],
     },
+    "C15": {
+        "claim": "Lean theorems: for every builder history whose sequence graph unfolds to a finite tree, the emitted body (Emit visitor folded over dfs_in_order) is exactly the structural in-order flattening of that tree (builder_emit_is_flatten: same instructions, order, nesting, block types); a branch is emitted with the depth at which its target sits among the enclosing constructs and no nearer construct is the target (branch_depth_reaches_target); instr_at is list insertion and panics iff pos > len; dangling sequences get fresh ids and builder calls touch only the addressed sequence; parameters keep their positions. Correspondence: the builder trace of random trees built in random insertion orders (append, positional insert, dangling-then-attach, block/loop_/if_else and their _at variants) is replayed by the model, whose predicted declared locals and emitted operator stream must equal the decoded real output exactly. Oracle: harness-side flattening of the intended tree, validation, local-slot checks.",
+        "level_note": "Trusted: Lean kernel; hand model of function_builder.rs and of the Emit visitor/emit_locals (sampled against the code each run); wasmparser decoding of the emitted body. Leaf operators of the builder suite are a small alphabet whose IR->operator mapping is written in the harness.",
+        "technique": "Lean 4 proof (emit = flatten of tree view, by mutual structural recursion) + builder-trace correspondence",
+        "lean_modules": ["Walrus.Props.C15"],
+        "suites": [{"name": "builder"}],
+        "rule": "random well-typed instruction trees (leaf alphabet: const/drop, local get/set/tee, global get/set, call, add, br_if, br, br_table, return, unreachable; block/loop/if-else with empty, i32 and multi-value types; depth<=6, up to ~60 nodes) built through the public builder API in a random construction order. Non-trivial: tree with >=3 nodes; distinct by builder trace",
+        "strength": "full under the finite-unfolding precondition; emitLocals: parameters-at-positions proved, injectivity/type agreement checked by the oracle",
+        "trusted_base": ["fuel used by the driver (2*arena size+4) is checked by the correspondence, not proved sufficient"],
+        "assumptions": ["sequence graph acyclic and every branch targets an enclosing sequence (otherwise the real emit panics / loops; outside the property)"],
+    },
 }
